@@ -32,7 +32,9 @@ POOL = {
 LITS = {
     T_INT: [0, 1, 2, 3, 7, 10, -1, -3],
     T_DEC: [D('0.0'), D('1.50'), D('2.'), D('0.001'), D('-1.5'), D('3.0'), D('123456.789')],
-    T_STR: ['', 'a', 'b', 'A', ' ', '%', 'x1', 'ab', '^a', 'b$', 'a|b', '.', '2020-01-01', '1.50', '3', 'Cafe\u0301', '\u00e9'],
+    T_STR: ['', 'a', 'b', 'A', ' ', '%', 'x1', 'ab', '^a', 'b$', 'a|b', '.', '2020-01-01', '1.50', '3', 'Cafe\u0301', '\u00e9',
+            # (quote characters of the other kind at the ends of the text: the delimiters alone are removed)
+            "'a'", '"', "a'", '"a"', "'"],
     T_DATE: [date(2020, 1, 1), date(2020, 2, 29), date(2019, 12, 31), date(2000, 1, 1), date(2020, 3, 1)],
     T_BOOL: [True, False],
 }
